@@ -38,10 +38,13 @@ type xfile struct {
 	fmtr     string
 	ffw      bool
 	uniform  bool
+	srcDir   bool // written into the directory of the source package
+	inPkg    bool // part of the source package: srcDir and pkgname == the source package's name
 }
 
 func expand(s, pkgDir, iface, tmpl string) string {
-	r := strings.NewReplacer("{{.SrcPackageName}}", path.Base(pkgDir), "{{.InterfaceName}}", iface, "{{.Mock}}", "Mock", "{{.Template}}", tmpl)
+	// {{.InterfaceDir}} is the (absolute) source directory; the model works with paths relative to the module root
+	r := strings.NewReplacer("{{.SrcPackageName}}", path.Base(pkgDir), "{{.InterfaceName}}", iface, "{{.Mock}}", "Mock", "{{.Template}}", tmpl, "{{.InterfaceDir}}", pkgDir)
 	return r.Replace(s)
 }
 
@@ -125,6 +128,8 @@ func (c *Case) xfiles() map[string]*xfile {
 		ffw, _ := m.eff.V["force-file-write"].(bool)
 		f := &xfile{path: m.path, pkgname: expand(str(m.eff.V["pkgname"]), m.pkg, m.iface, ""), template: idRe.FindString(tmpl),
 			schemaID: idRe.FindString(schema), require: req, fmtr: str(m.eff.V["formatter"]), ffw: ffw, uniform: true, owner: m.pkgChain[0].ID}
+		f.srcDir = path.Clean(m.dir) == m.pkg
+		f.inPkg = f.srcDir && f.pkgname == path.Base(m.pkg)
 		if old, ok := files[m.path]; ok {
 			if old.pkgname != f.pkgname || old.template != f.template || old.schemaID != f.schemaID || old.require != f.require || old.fmtr != f.fmtr || old.ffw != f.ffw || old.mocks[0].pkg != m.pkg {
 				old.uniform = false
@@ -162,10 +167,20 @@ import   "fmt"
 
 // FILETD {{ template "dump" .TemplateData }}
 {{- range .Interfaces }}
-// MOCK SRC={{ $.SrcPkgQualifier }} NAME={{ .Name }} STRUCT={{ .StructName }} TD={{ template "dump" .TemplateData }} TYPES={{ range .Methods }}{{ range .Params }}{{ .TypeString }};{{ end }}{{ end }}
+// MOCK PKG={{ $.Registry.SrcPkgName }} SRC={{ $.SrcPkgQualifier }} NAME={{ .Name }} STRUCT={{ .StructName }} TD={{ template "dump" .TemplateData }} TYPES={{ range .Methods }}{{ range .Params }}{{ .TypeString }};{{ end }}{{ range .Returns }}{{ .TypeString }};{{ end }}{{ end }}
 {{- end }}
 
-func   probeFmt( )  {fmt.Println( "x" )}
+import (
+{{- range .Imports }}
+	{{ .ImportStatement }}
+{{- end }}
+)
+{{ range .Interfaces }}{{ $s := .StructName }}
+type {{ $s }} struct{}
+{{ range .Methods }}
+func (m *{{ $s }}) {{ .Name }}({{ .ArgList }}) {{ .ReturnArgTypeList }} { panic("probe") }
+{{ end }}{{ end }}
+func   probeFmt{{ (index .Interfaces 0).StructName }}( )  {fmt.Println( "x" )}
 `
 }
 
@@ -187,13 +202,13 @@ func parseDump(s string) (any, error) {
 }
 
 type omock struct {
-	src, name, structname string
+	src, qual, name, structname string // src: name of the source package; qual: the qualifier handed to the template
 	td                    map[string]any
 	types                 string
 	file                  string
 }
 
-var mockLine = regexp.MustCompile(`(?m)^// MOCK SRC=(\S*) NAME=(\S+) STRUCT=(\S*) TD=(.*) TYPES=(\S*)$`)
+var mockLine = regexp.MustCompile(`(?m)^// MOCK PKG=(\S+) SRC=(\S*) NAME=(\S+) STRUCT=(\S*) TD=(.*) TYPES=(\S*)$`)
 
 // ---- port 2 -------------------------------------------------------------------------------------
 
@@ -204,7 +219,7 @@ func runPort2(c *Case) *vh.Violation {
 	for _, f := range files {
 		// outside the domain of this port: mocks sharing a file that disagree on a per-file parameter
 		// (conflicts belong to C09), a built-in template, output inside the source package
-		if !f.uniform || f.template == "" || !strings.HasPrefix(f.path, "out/") {
+		if !f.uniform || f.template == "" || !(strings.HasPrefix(f.path, "out/") || f.srcDir) {
 			vh.Invalid()
 			return nil
 		}
@@ -236,6 +251,20 @@ func runPort2(c *Case) *vh.Violation {
 			}
 		}
 		cl := []string{fmt.Sprintf("run:files=%d", min(len(files), 6))}
+		for _, f := range files {
+			switch {
+			case f.inPkg:
+				lower["run:file-in-source-package"] = true
+			case f.srcDir:
+				lower["run:file-in-source-dir-other-package-name"] = true
+			}
+			if k := kindOf(f.mocks[0].eff.From["pkgname"]); f.srcDir && (k == "interface" || k == "configs") {
+				pk := expand(str(resolve(f.mocks[0].pkgChain).V["pkgname"]), f.mocks[0].pkg, "", "")
+				if (pk == path.Base(f.mocks[0].pkg)) != f.inPkg {
+					lower["run:in-package-decision-differs-from-package-level-pkgname"] = true
+				}
+			}
+		}
 		if shared {
 			cl = append(cl, "run:file-shared-by-mocks")
 		}
@@ -311,6 +340,15 @@ func runPort2(c *Case) *vh.Violation {
 		}
 		return nil
 	})
+	for _, dir := range layout { // outputs written next to the sources
+		ents, _ := os.ReadDir(filepath.Join(d, dir))
+		for _, e := range ents {
+			if e.Type().IsRegular() && e.Name() != "x.go" {
+				b, _ := os.ReadFile(filepath.Join(d, dir, e.Name()))
+				produced[dir+"/"+e.Name()] = string(b)
+			}
+		}
+	}
 	shown["cmd.txt"] = fmt.Sprintf("env: %v\nmockery %s\npre-existing: %v\n", env, strings.Join(args, " "), c.Preexist)
 	ck := &checker{c: c, port: "run", writers: c.writers(), files: shown}
 	var ob strings.Builder
@@ -423,11 +461,11 @@ func runPort2(c *Case) *vh.Violation {
 	var observed []*omock
 	for _, p := range sortedKeys(produced) {
 		for _, m := range mockLine.FindAllStringSubmatch(produced[p], -1) {
-			td, err := parseDump(m[4])
+			td, err := parseDump(m[5])
 			if err != nil {
-				vh.Infra("dump of %s does not parse: %v: %s", p, err, m[4])
+				vh.Infra("dump of %s does not parse: %v: %s", p, err, m[5])
 			}
-			observed = append(observed, &omock{src: strings.TrimSuffix(m[1], "."), name: m[2], structname: m[3], td: asMap(td), types: m[5], file: p})
+			observed = append(observed, &omock{src: m[1], qual: m[2], name: m[3], structname: m[4], td: asMap(td), types: m[6], file: p})
 		}
 	}
 
@@ -588,19 +626,40 @@ func runPort2(c *Case) *vh.Violation {
 			if v := ck.compare(fmt.Sprintf("mock %s of %s.%s in %s", m.structname, m.pkg, m.iface, p), "mock", map[string]any{"template-data": hit.td}, [][]node{m.chain}, []string{"template-data"}); v != nil {
 				return v
 			}
+			// every consumer of pkgname/dir: the package clause (above), the in-package decision handed
+			// to the template (qualifier of the source package) and the qualification of local types
+			wantQual, wantItem := path.Base(m.pkg)+".", path.Base(m.pkg)+".Item"
+			if f.inPkg {
+				wantQual, wantItem = "", "Item"
+			}
+			rendered := map[bool]string{true: "in-package", false: "out-of-package"}
+			if hit.qual != wantQual {
+				return ck.fail(fmt.Sprintf("pkgname/at@file:source-package-qualifier:pkgname@%s:dir@%s:want-%s", ck.wantKind(m.eff, "pkgname"), ck.wantKind(m.eff, "dir"), rendered[f.inPkg]),
+					"%s: pkgname resolves to %q (set at %s) and dir to %q (set at %s), so the file is %s of %s; but the template was handed the source package qualifier %q, want %q",
+					p, f.pkgname, m.eff.From["pkgname"], m.dir, m.eff.From["dir"], rendered[f.inPkg], m.pkg, hit.qual, wantQual)
+			}
+			parts := strings.Split(strings.TrimSuffix(hit.types, ";"), ";")
+			if len(parts) != 3 {
+				vh.Infra("unexpected TYPES field %q in %s", hit.types, p)
+			}
+			if parts[1] != wantItem || parts[2] != wantItem {
+				return ck.fail(fmt.Sprintf("pkgname/at@mock:local-type-qualification:pkgname@%s:dir@%s:want-%s", ck.wantKind(m.eff, "pkgname"), ck.wantKind(m.eff, "dir"), rendered[f.inPkg]),
+					"%s: mock of %s.%s mentions the local type as %s / %s, but with pkgname %q (set at %s) and dir %q (set at %s) the file is %s and must say %s",
+					p, m.pkg, m.iface, parts[1], parts[2], f.pkgname, m.eff.From["pkgname"], m.dir, m.eff.From["dir"], rendered[f.inPkg], wantItem)
+			}
 			// replaced types
 			must, may, from := rtExpect(m.chain)
 			k := rtKey{modPath + "/tp", "T0"}
-			wantType, dontCare := "tp.T0;", false
+			wantType, dontCare := "tp.T0", false
 			if v, ok := must[k]; ok {
-				wantType = "tp." + regexp.MustCompile(`Zqr\d+`).FindString(v) + ";"
+				wantType = "tp." + regexp.MustCompile(`Zqr\d+`).FindString(v)
 			} else if len(may[k]) > 0 {
 				dontCare = true
 				vh.DontCare("replace-type-entry-only-at-a-less-specific-level")
 			}
-			if !dontCare && hit.types != wantType {
-				return ck.fail(fmt.Sprintf("replace-type/at@mock:want@%s:got@%s", kindOf(map[bool]string{true: from, false: "default"}[must[k] != ""]), ck.kindOfValue("replace-type", hit.types)),
-					"%s: mock of %s.%s has parameter type %s, but replace-type (most specific level that sets it: %q) requires %s", p, m.pkg, m.iface, hit.types, from, wantType)
+			if !dontCare && parts[0] != wantType {
+				return ck.fail(fmt.Sprintf("replace-type/at@mock:want@%s:got@%s", kindOf(map[bool]string{true: from, false: "default"}[must[k] != ""]), ck.kindOfValue("replace-type", parts[0])),
+					"%s: mock of %s.%s has parameter type %s, but replace-type (most specific level that sets it: %q) requires %s", p, m.pkg, m.iface, parts[0], from, wantType)
 			}
 		}
 		if len(here) != len(f.mocks) {
@@ -610,6 +669,91 @@ func runPort2(c *Case) *vh.Violation {
 	for _, p := range sortedKeys(produced) {
 		if files[p] == nil && produced[p] != preexisting {
 			return ck.fail("files/unexpected", "unexpected output file %s", p)
+		}
+	}
+
+	// a sample of the cases: the rendered files type-check where they were written. A directory is
+	// judged only if Go admits its content whatever mockery does: one package name per directory
+	// (plus <name>_test in _test.go files), distinct struct names, goimports as the formatter.
+	if c.TypeCheck {
+		type dirInfo struct {
+			ok      bool
+			names   map[string]bool
+			structs map[string]bool
+			first   *xfile
+		}
+		dirs := map[string]*dirInfo{}
+		for _, p := range sortedKeys(files) {
+			f := files[p]
+			dir := path.Dir(p)
+			di := dirs[dir]
+			if di == nil {
+				di = &dirInfo{ok: true, names: map[string]bool{}, structs: map[string]bool{}, first: f}
+				dirs[dir] = di
+			}
+			base := strings.TrimSuffix(f.pkgname, "_test")
+			if f.srcDir {
+				base = path.Base(f.mocks[0].pkg)
+				if f.pkgname != base && f.pkgname != base+"_test" {
+					di.ok = false
+				}
+			}
+			di.names[base] = true
+			if strings.HasSuffix(f.pkgname, "_test") && !strings.HasSuffix(p, "_test.go") {
+				di.ok = false
+			}
+			if f.fmtr != "goimports" || strings.HasSuffix(base, "_test") || len(di.names) > 1 {
+				di.ok = false
+			}
+			for _, m := range f.mocks {
+				k := f.pkgname + "." + m.structname
+				if di.structs[k] || m.structname == "Item" || len(m.structname) == 1 {
+					di.ok = false
+				}
+				di.structs[k] = true
+				if must, may, _ := rtExpect(m.chain); len(must)+len(may) > 0 {
+					di.ok = false // a replaced parameter type is C13's compile question
+				}
+			}
+		}
+		// a source directory that Go rejects anyway (foreign package name written into it) also
+		// breaks every file that imports that source package
+		badSrc := map[string]bool{}
+		for _, f := range files {
+			if f.srcDir && !dirs[path.Dir(f.path)].ok {
+				badSrc[f.mocks[0].pkg] = true
+			}
+		}
+		for _, f := range files {
+			if badSrc[f.mocks[0].pkg] {
+				dirs[path.Dir(f.path)].ok = false
+			}
+		}
+		var pats []string
+		for _, dir := range sortedKeys(dirs) {
+			if dirs[dir].ok {
+				pats = append(pats, "./"+dir)
+			}
+		}
+		vh.Class(fmt.Sprintf("run:type-checked-dirs=%d", min(len(pats), 4)))
+		if len(pats) > 0 {
+			if ok, diag := vh.GoVet(d, "", pats...); !ok {
+				kind, blame := "other", dirs[strings.TrimPrefix(pats[0], "./")].first
+				for _, k := range []string{"import cycle", "undefined", "redeclared", "imported and not used", "found packages", "does not implement"} {
+					if strings.Contains(diag, k) {
+						kind = strings.ReplaceAll(k, " ", "-")
+						break
+					}
+				}
+				for _, dir := range sortedKeys(dirs) {
+					if dirs[dir].ok && strings.Contains(diag, dir+"/") {
+						blame = dirs[dir].first
+						break
+					}
+				}
+				return ck.fail(fmt.Sprintf("typecheck/%s:pkgname@%s:dir@%s:%s", kind, ck.wantKind(blame.mocks[0].eff, "pkgname"), ck.wantKind(blame.mocks[0].eff, "dir"), map[bool]string{true: "in-package", false: "out-of-package"}[blame.inPkg]),
+					"the rendered files do not type-check in %v:\n%s", pats, vh.Trunc(diag, 2000))
+			}
 		}
 	}
 
